@@ -10,7 +10,9 @@ from . import source as S
 
 
 class LoopSpec:
-    def __init__(self, invariant=None, types=None, label=None, havoc_fields=(), variant=None, unroll=None):
+    def __init__(self, invariant=None, types=None, label=None, havoc_fields=(), variant=None, unroll=None, ghost_update=None, ghost_havoc=None):
+        self.ghost_havoc = ghost_havoc  # callable(ex): havoc the ghost state the loop changes
+        self.ghost_update = ghost_update  # callable(LoopCtx): runs at the end of each iteration (ghost code)
         self.invariant = invariant  # callable(LoopCtx) -> z3 Bool (or list of (name, Bool))
         self.types = types or {}
         self.label = label
@@ -128,6 +130,9 @@ class StmtMixin:
     # ------------------------------------------------------------ assignment
     def ex_Assign(self, st, env):
         v = self.ev(st.value, env)
+        lt = self.frames[-1].get("local_types") or {}
+        if len(st.targets) == 1 and isinstance(st.targets[0], ast.Name) and st.targets[0].id in lt:
+            v = self.coerce_to_annotation(v, lt[st.targets[0].id])
         for t in st.targets:
             self.bind_target(t, v, env)
 
@@ -135,7 +140,11 @@ class StmtMixin:
         if st.value is None:
             return
         v = self.ev(st.value, env)
-        ty = self.world.annotation_type(self, st.annotation, env)
+        lt = self.frames[-1].get("local_types") or {}
+        if isinstance(st.target, ast.Name) and st.target.id in lt:
+            ty = lt[st.target.id]
+        else:
+            ty = self.world.annotation_type(self, st.annotation, env)
         v = self.coerce_to_annotation(v, ty)
         self.bind_target(st.target, v, env)
         if isinstance(st.target, ast.Name) and ty is not None:
@@ -254,7 +263,9 @@ class StmtMixin:
                 ty = self.decl_types.get(id(e), {}).get(name)
                 e = e.parent
         if ty is not None:
-            return self.fresh(f"{name}@L", ty)
+            nv = self.fresh(f"{name}@L", ty)
+            self.assume_seq_lengths(nv)
+            return nv
         if isinstance(v, VInt):
             return self.fresh(f"{name}@L", Int)
         if isinstance(v, VBool):
@@ -278,7 +289,16 @@ class StmtMixin:
             return VMap(v.k, v.v, z3.Const(nm + "!p", z3.ArraySort(ks, z3.BoolSort())), [z3.Const(f"{nm}!{i}", z3.ArraySort(ks, s)) for i, s in enumerate(flat_sorts(v.v))])
         if isinstance(v, VTuple):
             return VTuple([self.havoc_like(f"{name}.{i}", x, None, env) for i, x in enumerate(v.items)])
-        raise OutOfSubset(f"loop modifies `{name}` ({v!r}) and no type is declared for it (line {self.cur_line})")
+        return VPoison(name)
+
+    def assume_seq_lengths(self, v):
+        if isinstance(v, VSeq):
+            self.assume(v.length >= 0)
+        elif isinstance(v, VTuple):
+            for x in v.items:
+                self.assume_seq_lengths(x)
+        elif isinstance(v, VOpt):
+            self.assume_seq_lengths(v.val)
 
     def havoc_loop_state(self, st, env, spec):
         body = st.body + st.orelse
@@ -310,6 +330,8 @@ class StmtMixin:
             self.set_existing(env, name, self.force(self.havoc_like(name, v, spec, env)))
         for (sort, field) in (spec.havoc_fields if spec else []):
             self.havoc_field(sort, field)
+        if spec is not None and spec.ghost_havoc is not None:
+            spec.ghost_havoc(self)
         if self.frames[-1].get("heap_loops", True) and self.body_may_write_heap(body):
             self.world.havoc_heap_for_loop(self, body)
         return pre
@@ -390,7 +412,7 @@ class StmtMixin:
         o, spec = self.loop_spec(st)
         it = self.ev_iterable(st.iter, env)
         base = f"{self.frames[-1]['fid']}.loop{o}" + (f"[{spec.label}]" if spec and spec.label else "")
-        if isinstance(it, list) and (spec is None or spec.invariant is None):
+        if isinstance(it, list) and (spec is None or spec.invariant is None or len(it) <= 1):
             for item in it:
                 self.bind_target(st.target, item, env)
                 if self.run_body(st, env) == "break":
@@ -414,6 +436,8 @@ class StmtMixin:
             self.bind_target(st.target, self.seq_get(seq, i), env)
             if self.run_body(st, env) == "break":
                 return
+            if spec is not None and spec.ghost_update is not None:
+                spec.ghost_update(LoopCtx(self, env, idx=i, seq=seq, pre=pre))
             self.check_inv(spec, LoopCtx(self, env, idx=i + 1, seq=seq, pre=pre), base, "inv-step")
             raise Halt()
         self.ex_block(st.orelse, env)
@@ -613,6 +637,10 @@ class StmtMixin:
                 return self.force(self.world.apply_contract(self, fn.contract, args, kwargs, fn))
         if isinstance(fn, VPy) and fn.path is not None:
             return self.force(self.world.call_path(self, fn.path, args, kwargs))
+        if isinstance(fn, VRef) and hasattr(self.world, "call_ref"):
+            r = self.world.call_ref(self, fn, args, kwargs)
+            if r is not None:
+                return self.force(r[0])
         raise OutOfSubset(f"call of {fn!r}")
 
     def bind_params(self, a: ast.arguments, args, kwargs, env, defenv, fname):
@@ -658,7 +686,8 @@ class StmtMixin:
         if isinstance(node, ast.Lambda):
             return self.ev(node.body, env)
         fid = f"{fn.module.name if fn.module else '?'}:{getattr(fn, 'qual', fn.name)}"
-        self.frames.append({"fid": fid, "loops": S.loops_of(node), "loop_specs": self.world.loop_specs_for(fn), "fn_node": node})
+        cc = self.world.contract_for(fn)
+        self.frames.append({"fid": fid, "loops": S.loops_of(node), "loop_specs": self.world.loop_specs_for(fn), "fn_node": node, "local_types": (cc.local_types if cc else {}), "unroll_while": (cc.unroll_while if cc else 0)})
         try:
             self.ex_block(node.body, env)
         except ReturnSig as r:
